@@ -516,7 +516,8 @@ class FakeProc:
     trial's real std.out, and writes a real checkpoint file, whenever the harness lets it advance.
     """
 
-    def __init__(self, backend, trial_id, run_no, levels, exit_code, late, exit_lag):
+    def __init__(self, backend, trial_id, run_no, levels, exit_code, late, exit_lag, ext_stop_after=None):
+        self.ext_stop_after = ext_stop_after  # the job is stopped from outside after this many reports
         self.backend = backend
         self.trial_id = trial_id
         self.run_no = run_no
@@ -540,6 +541,17 @@ class FakeProc:
             if not self.levels:
                 break
             self._emit(self.levels.pop(0))
+            if self.ext_stop_after is not None and len(self.emitted) >= self.ext_stop_after:
+                break
+        if self.ext_stop_after is not None and len(self.emitted) >= self.ext_stop_after:
+            # stopped independently of the scheduler (e.g. a user or a time limit kills the job): the
+            # backend's own 'stop' marker appears without stop_trial having been called
+            self.backend._file_path(trial_id=self.trial_id, filename="stop").touch()
+            self.killed = True
+            self.returncode = -15
+            if self.backend.recorder is not None:
+                self.backend.recorder.ev("w.external_stop", trial=self.trial_id, run=self.run_no)
+            return
         if not self.levels:
             if self.done_since is None:
                 self.done_since = 0
@@ -656,7 +668,8 @@ def fake_proc_backend_class():
                 exit_code = 1
             proc = FakeProc(self, trial_id, run, levels, exit_code,
                             late=self.prng.randint(0, self.plan.get("late_max", 2)),
-                            exit_lag=self.prng.randint(0, self.plan.get("exit_lag_max", 1)))
+                            exit_lag=self.prng.randint(0, self.plan.get("exit_lag_max", 1)),
+                            ext_stop_after=(self.plan.get("ext_stop") or {}).get(f"{trial_id}:{run}"))
             self.procs[trial_id] = proc
             self.all_procs.append(proc)
             self.trial_subprocess[trial_id] = proc
